@@ -1,7 +1,9 @@
 package rules
 
 import (
+	"fmt"
 	"go/token"
+	"os"
 	"regexp"
 	"strings"
 
@@ -611,6 +613,9 @@ func (c *Ctx) scannerSummary(cp *ana.Prog, f *ssa.Function) string {
 				return
 			}
 			in := site.(ssa.Instruction)
+			if os.Getenv("MHUBSA_DEBUGC20") != "" {
+				fmt.Fprintln(os.Stderr, "C20dbg", fname(f), "type", ty, d.Name, cp.InstrPos(in), "guarded:", ana.Guarded(in, ta), "restore:", restoreCall(cp, site))
+			}
 			if !ana.Guarded(in, ta) || restoreCall(cp, site) {
 				return
 			}
@@ -627,25 +632,34 @@ func (c *Ctx) scannerSummary(cp *ana.Prog, f *ssa.Function) string {
 				ctrs = append(ctrs, tag)
 			}
 		})
-		// address predicates guarding the counted branch
-		for _, iff := range ana.IfsUsing(f, func(cd ana.Cond) bool {
-			if cd.Op != token.EQL && cd.Op != token.NEQ {
-				return false
+		// address predicates evaluated under the type test (as a branch condition or as the operand of a
+		// materialised && in a switch case)
+		ana.Instrs(f, func(in ssa.Instruction) {
+			bo, ok := in.(*ssa.BinOp)
+			if !ok || (bo.Op != token.EQL && bo.Op != token.NEQ) {
+				return
 			}
-			ex := norm(cp.Expr(cd.X, 0) + "|" + cp.Expr(cd.Y, 0))
-			return strings.Contains(ex, "MULTISIG")
-		}) {
-			if ana.Guarded(iff, ta) || iff.Block() != nil {
-				cd := ana.NormCond(iff.Cond)
-				e := norm(cp.Expr(cd.X, 0)) + "==" + norm(cp.Expr(cd.Y, 0))
-				if ana.Guarded(iff, ta) || blockGuardedBy(iff, ta) {
-					if !seen["c:"+e] {
-						seen["c:"+e] = true
-						conds = append(conds, e)
+			ex := norm(cp.Expr(bo.X, 0) + "|" + cp.Expr(bo.Y, 0))
+			if !strings.Contains(ex, "MULTISIG") {
+				return
+			}
+			guarded := ana.Guarded(bo, ta)
+			if !guarded {
+				for _, ref := range *bo.Referrers() {
+					if iff, ok := ref.(*ssa.If); ok && blockGuardedBy(iff, ta) {
+						guarded = true
 					}
 				}
 			}
-		}
+			if !guarded {
+				return
+			}
+			e := norm(cp.Expr(bo.X, 0)) + "==" + norm(cp.Expr(bo.Y, 0))
+			if !seen["c:"+e] {
+				seen["c:"+e] = true
+				conds = append(conds, e)
+			}
+		})
 		sortStrings(conds)
 		sortStrings(ctrs)
 		parts = append(parts, "type "+ty+": if "+strings.Join(conds, " & ")+" -> "+strings.Join(ctrs, ","))
